@@ -274,7 +274,7 @@ def readQuotedIdentifier (tb : Tables) (inp bs : Bytes) : Except LexErr (Tok × 
     match quotedIdentF quote r1.length r1 [] with
     | .inl (some (v, rest)) => .ok ({ ty := tb.ttDouble, value := v, quote }, rest)
     | .inl none => .error ⟨"E1002", .at (inp.length - bs.length)⟩
-    | .inr () => .error ⟨"E1002", .internal⟩
+    | .inr () => .error ⟨"E1002", .at (inp.length - bs.length)⟩
 
 /-- body of a backtick identifier (bytes) -/
 def backtickF : Bytes → Bytes → Option (Bytes × Bytes)
@@ -394,7 +394,7 @@ def dollarBodyF (closing : Bytes) : Nat → Bytes → Bytes → Option (Bytes ×
         dollarBodyF closing fuel (bs.drop w) (acc ++ bs.take w)
 
 /-- the `$` branch of readPunctuation; `bs` starts with `$` -/
-def readDollar (cls : CharClass) (tb : Tables) (bs : Bytes) : Except LexErr (Tok × Bytes) :=
+def readDollar (cls : CharClass) (tb : Tables) (inp bs : Bytes) : Except LexErr (Tok × Bytes) :=
   let r1 := bs.drop 1
   let ph (rest : Bytes) : Except LexErr (Tok × Bytes) := .ok ({ ty := tb.ttPlaceholder, value := [36] }, rest)
   match nextRune r1 with
@@ -415,7 +415,7 @@ def readDollar (cls : CharClass) (tb : Tables) (bs : Bytes) : Except LexErr (Tok
           let closing := [36] ++ tag ++ [36]
           match dollarBodyF closing r3.length r3 [] with
           | some (content, rest) => .ok ({ ty := tb.ttDollar, value := content }, rest)
-          | none => .error ⟨"E1002", .internal⟩
+          | none => .error ⟨"E1002", .at (inp.length - bs.length)⟩
     else ph r1
 
 /-- readPunctuation; `bs` is non-empty and its first rune starts no identifier, number or quoted token -/
@@ -423,7 +423,7 @@ def readPunctuation (cls : CharClass) (tb : Tables) (inp bs : Bytes) : Except Le
   match bs with
   | [] => .error ⟨"E2005", .at inp.length⟩
   | b :: r1 =>
-    if b == 36 then readDollar cls tb bs
+    if b == 36 then readDollar cls tb inp bs
     else if b == 64 then
       -- `@>` `@@` `@name` `@`
       match nextRune r1 with
